@@ -138,6 +138,36 @@ def run_family(rep, cfg, pat, floor, prop):
             rep.ok('value:' + tag, 'matrix-value', site, desc + (' [contract used by callers]' if contracted else ''))
             rep.sample(dict(config=cfg, function=dem, site=site, spec=desc,
                             lane0=str(next(iter(exp_w.values())) if exp_w else exp_ret)[:200]))
+        # in-place hypotheses: the output register is also one of the (read-only) state registers.  Every kernel of the pinned tree
+        # computes into locals and stores its output last, and the permutation code updates state registers in place; the
+        # hypotheses are claimed for the signatures of the pinned tree only (all of them hold there).
+        if not contracted and not bad and harness.is_pinned(dem):
+            vregs = [p for p in ps if re.match(r'V\d( const)?\s*&$', p.dty)]
+            outs_ = [p for p in vregs if 'const' not in p.dty]
+            ins_ = [p for p in vregs if 'const' in p.dty]
+            for o_ in outs_:
+                for i_ in ins_:
+                    al = {i_.name: o_.name}
+                    atag = '%s alias=%s=%s' % (tag, i_.name, o_.name)
+                    try:
+                        pn2 = [al.get(x, x) for x in pn]
+                        ew2, er2, _ce, _d = spec_for(base, W, pn2)
+                        ctx2 = contracts.Ctx()
+                        summ2, _ = contracts.wrapper_summaries(mod, ctx2)
+                        summ2.pop(n, None)
+                        eff2 = harness.run_routine(mod, n, summ2, opts=opts, extents=ext, alias=al)
+                        got2 = {k: (FV.const(v) if isinstance(v, int) else v).nf for k, v in eff2.writes.items()}
+                        bad2 = ['%s+%s holds %s, specification %s' % (k[0], k[1], str(got2.get(k))[:120], str(e)[:120])
+                                for k, e in sorted(ew2.items(), key=str) if got2.get(k) != e]
+                        if bad2:
+                            rep.refute('value:' + atag, 'matrix-value', site, 'with the output register %s also passed as %s: %s' % (
+                                o_.name, i_.name, '; '.join(bad2[:2])))
+                        else:
+                            rep.ok('value:' + atag, 'matrix-value', site, desc + ' [output register aliased with %s]' % i_.name)
+                    except (Incomplete, IRError) as e:
+                        rep.note('in-place hypothesis %s not decided: %s' % (atag, str(e)[:150]))
+                    except Sink as e:
+                        rep.refute('safety:' + atag, 'matrix-safety', sink_site(e, site), str(e))
         # footprint: coefficient reads inside the declared array, registers only
         allowed = set()
         for p in ps:
